@@ -175,20 +175,21 @@ def do_replay(prop, path):
         return 2
     sigs = [v['signature'] for v in res['violations']]
     print('replay digest=%s violations=%s' % (res['digest'], sigs))
-    if body['signature'] in sigs:
-        known = load_known(prop)
-        e = match_known(known, body['signature'])
+    known = load_known(prop)
+    unknown = [v for v in res['violations'] if not match_known(known, v['signature'])]
+    for v in res['violations']:
+        e = match_known(known, v['signature'])
         if e:
             print('KNOWN-FINDING: property=%s %s' % (prop, e['what']))
-            return 0
+    if unknown:
+        if body['signature'] not in [v['signature'] for v in unknown]:
+            print('replay produced different violation(s) than recorded (%s)' % body['signature'])
         print('VIOLATION property=%s replay=%s' % (prop, path))
-        for v in res['violations']:
+        for v in unknown:
             print('  oracle=%s signature=%s\n  %s' % (v['oracle'], v['signature'], v['detail'][:600]))
         return 1
     if res['violations']:
-        print('replay produced different violation(s) than recorded (%s)' % body['signature'])
-        print('VIOLATION property=%s replay=%s' % (prop, path))
-        return 1
+        return 0
     print('replay: no violation (the recorded one does not reproduce on this tree)')
     return 0
 
